@@ -29,6 +29,13 @@
       BlockingBegin of a side caused by a BlockOutgoing of positive duration,
       and until the next BlockingEnd of that side, every TunnelSent of that
       side carries the bypass flag -- nothing else leaves a blocked side.
+    - [C16_fail_closed]: completely fail-closed defenses. If no BlockOutgoing
+      action returned so far for a side allows bypass, then between a
+      BlockingBegin of that side (positive duration) and the next BlockingEnd
+      NOTHING is tunnel-sent by that side -- not even padding carrying the
+      bypass flag; and [C16_bypass_needs_block]: a TunnelSent that does leave
+      a blocking side carries the bypass flag AND some earlier BlockOutgoing
+      action of that side allowed bypass.
     PARTIAL in one respect: "the bypass flag may only be honoured when every
     action that started or updated the blocking allowed bypass" is proved
     about the simulator's own blocking state ([C16_no_leak] with
@@ -38,7 +45,7 @@
     replays the actions and checks that rule on generated runs. *)
 From MB Require Import Model.Framework Model.Sim.
 From MB Require Import Proofs.SimReach.
-From MB Require Proofs.SimBlocking Proofs.SimTrace Proofs.SimHistory Proofs.SimActionTrace Proofs.SimBlockTrace.
+From MB Require Proofs.SimBlocking Proofs.SimTrace Proofs.SimHistory Proofs.SimActionTrace Proofs.SimBlockTrace Proofs.SimFailClosed.
 Import ListNotations.
 Open Scope N_scope.
 
@@ -126,3 +133,52 @@ Theorem C16_trace : forall fuel cc sc tp tr delay pps args out,
       se_bypass (SimHistory.h_ev rk) = true.
 Proof. exact SimBlockTrace.blocked_side_sends_only_bypass. Qed.
 Print Assumptions C16_trace.
+
+Theorem C16_fail_closed : forall fuel cc sc tp tr delay pps args out,
+  SimHistory.full_args args ->
+  sim_advanced fuel cc sc tp (parse_trace tr delay) delay pps args = Ok out ->
+  exists H : list SimHistory.hrec, out = map SimHistory.h_ev H /\
+  exists f : nat -> nat,
+    (forall k rk m, nth_error H k = Some rk ->
+       (se_ev (SimHistory.h_ev rk) = TEPaddingSent m \/ se_ev (SimHistory.h_ev rk) = TEBlockingBegin m) ->
+       SimActionTrace.caused_by H k rk m (f k)) /\
+    forall b k rb rk m rj a,
+      (b < k)%nat -> nth_error H b = Some rb -> nth_error H k = Some rk ->
+      se_ev (SimHistory.h_ev rb) = TEBlockingBegin m ->
+      nth_error H (f b) = Some rj -> In a (SimHistory.h_acts rj) -> taction_machine a = m ->
+      SimActionTrace.completes a (SimHistory.h_ev rb) -> (0 < SimBlockTrace.block_dur a) ->
+      se_client (SimHistory.h_ev rk) = se_client (SimHistory.h_ev rb) ->
+      (forall i ri, (b < i < k)%nat -> nth_error H i = Some ri ->
+                    ~ (se_ev (SimHistory.h_ev ri) = TEBlockingEnd /\
+                       se_client (SimHistory.h_ev ri) = se_client (SimHistory.h_ev rb))) ->
+      (forall j rj' a', (j < k)%nat -> nth_error H j = Some rj' ->
+                        se_client (SimHistory.h_ev rj') = se_client (SimHistory.h_ev rb) ->
+                        In a' (SimHistory.h_acts rj') -> SimFailClosed.block_bypass a' = false) ->
+      se_ev (SimHistory.h_ev rk) <> TETunnelSent.
+Proof. exact SimFailClosed.fail_closed_nothing_leaves. Qed.
+Print Assumptions C16_fail_closed.
+
+Theorem C16_bypass_needs_block : forall fuel cc sc tp tr delay pps args out,
+  SimHistory.full_args args ->
+  sim_advanced fuel cc sc tp (parse_trace tr delay) delay pps args = Ok out ->
+  exists H : list SimHistory.hrec, out = map SimHistory.h_ev H /\
+  exists f : nat -> nat,
+    (forall k rk m, nth_error H k = Some rk ->
+       (se_ev (SimHistory.h_ev rk) = TEPaddingSent m \/ se_ev (SimHistory.h_ev rk) = TEBlockingBegin m) ->
+       SimActionTrace.caused_by H k rk m (f k)) /\
+    forall b k rb rk m rj a,
+      (b < k)%nat -> nth_error H b = Some rb -> nth_error H k = Some rk ->
+      se_ev (SimHistory.h_ev rb) = TEBlockingBegin m ->
+      nth_error H (f b) = Some rj -> In a (SimHistory.h_acts rj) -> taction_machine a = m ->
+      SimActionTrace.completes a (SimHistory.h_ev rb) -> (0 < SimBlockTrace.block_dur a) ->
+      se_ev (SimHistory.h_ev rk) = TETunnelSent ->
+      se_client (SimHistory.h_ev rk) = se_client (SimHistory.h_ev rb) ->
+      (forall i ri, (b < i < k)%nat -> nth_error H i = Some ri ->
+                    ~ (se_ev (SimHistory.h_ev ri) = TEBlockingEnd /\
+                       se_client (SimHistory.h_ev ri) = se_client (SimHistory.h_ev rb))) ->
+      se_bypass (SimHistory.h_ev rk) = true /\
+      exists j rj' a', (j < k)%nat /\ nth_error H j = Some rj' /\
+        se_client (SimHistory.h_ev rj') = se_client (SimHistory.h_ev rb) /\
+        In a' (SimHistory.h_acts rj') /\ SimFailClosed.block_bypass a' = true.
+Proof. exact SimFailClosed.blocked_side_tunnel_sent_needs_bypass_block. Qed.
+Print Assumptions C16_bypass_needs_block.
